@@ -1,3 +1,418 @@
 package main
 
-func cmdCheck(args []string) int { return 2 }
+// govc check <id> [--tier quick|thorough]: decide one property on the current /repo tree.
+
+import (
+	"sync"
+	"crypto/sha1"
+	"encoding/json"
+	"flag"
+	"fmt"
+	"os"
+	"path/filepath"
+	"sort"
+	"strconv"
+	"strings"
+	"time"
+)
+
+type PropRun struct {
+	ID          string
+	Results     []*FnResult
+	FUC         []string // functions under contract
+	Abstracted  []string // callees seen only through havoc / assumed contracts
+	Assumptions []string
+	NotCovered  []string
+	Explanation string
+	Level       string // evidence level: proof | other
+	Bounded     []map[string]any // bounded stand-ins (never counted as proved)
+	Extra       map[string]any
+	// custom replay synthesiser: returns (goTestSource, pkgDir, testName) or "" if none
+	Replay func(o *Obligation, r *FnResult) *ReplaySpec
+}
+
+type ReplaySpec struct {
+	PkgDir   string // package directory relative to the repo root, e.g. pkg/lsp
+	TestName string
+	Source   string // complete _test.go source (package clause included)
+	Expect   string // "panic" | "fail": what demonstrates the violation
+}
+
+type propDriver struct {
+	ID    string
+	Title string
+	Run   func(e *Engine, tier Tier) *PropRun
+}
+
+var drivers = map[string]*propDriver{}
+
+func register(d *propDriver) { drivers[d.ID] = d }
+
+type knownFinding struct {
+	Property   string `json:"property"`
+	Obligation string `json:"obligation"`
+	Witness    string `json:"witness"`
+	Why        string `json:"why_not_fixed"`
+}
+
+type knownFile struct {
+	Findings []knownFinding `json:"findings"`
+	Fixed    []string       `json:"fixed"`
+}
+
+func verifDir() string {
+	if d := os.Getenv("VERIF_DIR"); d != "" {
+		return d
+	}
+	exe, err := os.Executable()
+	if err == nil {
+		d := filepath.Dir(filepath.Dir(exe))
+		if _, err := os.Stat(filepath.Join(d, "properties.jsonl")); err == nil {
+			return d
+		}
+	}
+	return "/verif"
+}
+
+func loadKnown() *knownFile {
+	k := &knownFile{}
+	b, err := os.ReadFile(filepath.Join(verifDir(), "known_findings.json"))
+	if err == nil {
+		json.Unmarshal(b, k)
+	}
+	return k
+}
+
+type baselineFile struct {
+	Property    string   `json:"property"`
+	Obligations []string `json:"obligations"`
+	Undecided   []string `json:"undecided_on_unchanged_tree"`
+}
+
+func loadBaseline(id string) (map[string]bool, map[string]bool) {
+	m, u := map[string]bool{}, map[string]bool{}
+	b, err := os.ReadFile(filepath.Join(verifDir(), "baseline", id+".json"))
+	if err != nil {
+		return m, u
+	}
+	var bf baselineFile
+	json.Unmarshal(b, &bf)
+	for _, o := range bf.Obligations {
+		m[o] = true
+	}
+	for _, o := range bf.Undecided {
+		u[o] = true
+	}
+	return m, u
+}
+
+var contractKinds = map[string]bool{"post": true, "pre": true, "inv-init": true, "inv-pres": true, "dec": true, "schema": true, "attr": true,
+	"own": true, "rg": true, "rank": true, "cost": true, "crash": true, "frame": true, "reads": true, "lemma": true, "struct": true}
+
+func cmdCheck(args []string) int {
+	t0 := time.Now()
+	fs := flag.NewFlagSet("check", flag.ExitOnError)
+	tierName := fs.String("tier", "quick", "quick|thorough")
+	repo := fs.String("repo", "/repo", "repository under verification")
+	writeBaseline := fs.Bool("write-baseline", false, "(maintenance) record the discharged obligations as the baseline")
+	verbose := fs.Bool("v", false, "list every non-discharged obligation")
+	var id string
+	if len(args) > 0 && !strings.HasPrefix(args[0], "-") {
+		id = args[0]
+		args = args[1:]
+	}
+	fs.Parse(args)
+	if v := os.Getenv("VERIF_TIER"); v != "" {
+		*tierName = v
+	}
+	seed := 0
+	if v := os.Getenv("VERIF_SEED"); v != "" {
+		seed, _ = strconv.Atoi(v)
+	}
+	d := drivers[id]
+	if d == nil {
+		fmt.Fprintln(os.Stderr, "unknown property", id)
+		return 2
+	}
+	tier := quickTier(seed)
+	if *tierName == "thorough" {
+		tier = thoroughTier(seed)
+	}
+	e, err := loadEngine(*repo)
+	if err != nil {
+		// the tree does not build: nothing can be decided; this is an error of the input, not a violation
+		fmt.Fprintln(os.Stderr, "govc: cannot load /repo:", err)
+		return 2
+	}
+	e.computeModSets()
+	e.fixPureModsets()
+	tGen := time.Now()
+	run := d.Run(e, tier)
+	run.ID = id
+	if os.Getenv("GOVC_TRACE") != "" {
+		fmt.Fprintf(os.Stderr, "generation: %.1fs (load+gen since start %.1fs)\n", time.Since(tGen).Seconds(), time.Since(t0).Seconds())
+	}
+	if os.Getenv("GOVC_GENONLY") != "" {
+		return 0
+	}
+	known := loadKnown()
+	base, baseUndecided := loadBaseline(id)
+	if !*writeBaseline && tier.Name == "quick" {
+		// obligations that were already undecided on the unchanged tree are not claimed: no model search for them
+		tier.Skip = func(o *Obligation) bool { return baseUndecided[o.Name] && !contractKinds[o.Kind] }
+	}
+	discharge(run.Results, tier)
+	var cwg sync.WaitGroup
+	for _, r := range run.Results {
+		if len(r.Obls) > 0 && r.frame != nil {
+			r := r
+			cwg.Add(1)
+			go func() { defer cwg.Done(); coverCheck(r, tier) }()
+		}
+	}
+	cwg.Wait()
+	knownBy := map[string]knownFinding{}
+	for _, k := range known.Findings {
+		if k.Property == id {
+			knownBy[k.Obligation] = k
+		}
+	}
+	var violations []string
+	claimed, discharged, undecided, knownHit := 0, 0, 0, 0
+	var undecidedList, knownList []string
+	seen := map[string]bool{}
+	samples := []any{}
+	byKind := map[string][2]int{}
+	solverWins := map[string]int{}
+	var solverSecs float64
+	var vacuous []string
+	for _, r := range run.Results {
+		solverSecs += r.SolverSecs
+		if r.frame != nil && len(r.Obls) > 0 && !r.CoverOK && r.CoverAnswer != "no-return" {
+			vacuous = append(vacuous, r.Fn)
+		}
+		for _, o := range r.Obls {
+			seen[o.Name] = true
+			k := byKind[o.Kind]
+			k[0]++
+			isClaimed := base[o.Name] || contractKinds[o.Kind]
+			if o.Answer == "unsat" {
+				k[1]++
+				byKind[o.Kind] = k
+				if isClaimed || *writeBaseline {
+					claimed++
+					discharged++
+				}
+				solverWins[strings.Fields(o.Solver + " ?")[0]]++
+				if len(samples) < 6 && o.Solver != "trivial" {
+					samples = append(samples, map[string]any{"obligation": o.Name, "kind": o.Kind, "pos": o.Pos, "answer": o.Answer, "solver": o.Solver})
+				}
+				continue
+			}
+			byKind[o.Kind] = k
+			if kf, ok := knownBy[o.Name]; ok {
+				knownHit++
+				knownList = append(knownList, o.Name)
+				fmt.Printf("KNOWN-FINDING: property=%s %s witness: %s\n", id, o.Name, kf.Witness)
+				continue
+			}
+			if !isClaimed && !baseUndecided[o.Name] && !*writeBaseline && o.Model != "" && r.frame != nil {
+				// a new potentially panicking instruction (not present on the unchanged tree): replay its counter-model
+				if spec := genericReplay(e, r, o); spec != nil {
+					if out, failed := runReplay(e, spec); failed {
+						_ = out
+						rp := writeReplay(e, run, r, o)
+						line := fmt.Sprintf("VIOLATION property=%s replay=%s", id, rp.Path)
+						violations = append(violations, line)
+						fmt.Printf("%s\n   obligation %s [%s] at %s (new obligation, counter-model replays as a panic)\n", line, o.Name, o.Answer, o.Pos)
+						continue
+					}
+				}
+			}
+			if !isClaimed {
+				undecided++
+				undecidedList = append(undecidedList, o.Name+" ["+o.Answer+"]")
+				if *verbose {
+					fmt.Printf("UNDECIDED %s %s [%s] %s\n", o.Kind, o.Name, o.Answer, o.Pos)
+				}
+				continue
+			}
+			claimed++
+			// claimed obligation not discharged: retry before reporting
+			if !*writeBaseline {
+				if retryObligation(r, o, tier) {
+					discharged++
+					continue
+				}
+				rp := writeReplay(e, run, r, o)
+				line := fmt.Sprintf("VIOLATION property=%s replay=%s", id, rp.Path)
+				if !rp.Confirmed {
+					line += " no-failing-input-found"
+				}
+				violations = append(violations, line)
+				fmt.Printf("%s\n   obligation %s [%s] at %s\n", line, o.Name, o.Answer, o.Pos)
+			} else if *verbose {
+				fmt.Printf("NOT-DISCHARGED %s %s [%s] %s\n", o.Kind, o.Name, o.Answer, o.Pos)
+			}
+		}
+	}
+	for _, v := range vacuous {
+		// a contradictory context proves everything: refuse to call that a pass
+		rp := filepath.Join(verifDir(), "replays", id, "vacuous-"+sanitize(v)+".json")
+		os.MkdirAll(filepath.Dir(rp), 0o755)
+		os.WriteFile(rp, []byte(fmt.Sprintf("{\"obligation\":\"cover/%s\",\"reason\":\"normal exit provably unreachable under the contract's preconditions and assumed callee contracts (vacuous proof context)\"}", v)), 0o644)
+		line := fmt.Sprintf("VIOLATION property=%s replay=%s no-failing-input-found", id, rp)
+		violations = append(violations, line)
+		fmt.Println(line)
+	}
+	var gone []string
+	for o := range base {
+		if !seen[o] {
+			gone = append(gone, o)
+		}
+	}
+	sort.Strings(gone)
+	for o, kf := range knownBy {
+		if !seen[o] {
+			fmt.Printf("note: known finding %q not generated on this tree (%s)\n", o, kf.Witness)
+		}
+	}
+	if *writeBaseline {
+		var names, und []string
+		for _, r := range run.Results {
+			for _, o := range r.Obls {
+				if o.Answer == "unsat" {
+					names = append(names, o.Name)
+				} else {
+					und = append(und, o.Name)
+				}
+			}
+		}
+		sort.Strings(names)
+		sort.Strings(und)
+		os.MkdirAll(filepath.Join(verifDir(), "baseline"), 0o755)
+		b, _ := json.MarshalIndent(baselineFile{Property: id, Obligations: names, Undecided: und}, "", " ")
+		os.WriteFile(filepath.Join(verifDir(), "baseline", id+".json"), b, 0o644)
+		fmt.Printf("baseline written: %d obligations\n", len(names))
+	}
+	total := 0
+	for _, r := range run.Results {
+		total += len(r.Obls)
+	}
+	if total == 0 {
+		fmt.Printf("VIOLATION property=%s replay=%s no-failing-input-found\n   no obligations were generated (vacuous check)\n", id, filepath.Join(verifDir(), "replays", id, "no-obligations.json"))
+		violations = append(violations, "vacuous")
+	}
+	// evidence
+	trusted := append([]string{}, run.Assumptions...)
+	for _, t := range sortedKeys(trustedUsed) {
+		trusted = append(trusted, "assumed contract: "+t)
+	}
+	trusted = append(trusted, "x/tools go/ssa lowering of the Go source", "SMT encodings of DESIGN.md 1.3 (mathematical integers, abstract strings, flat typed heap)", "z3 4.8.12, z3 5.1.0, cvc5 1.0.3")
+	kinds := map[string]any{}
+	for k, v := range byKind {
+		kinds[k] = map[string]int{"generated": v[0], "discharged": v[1]}
+	}
+	var notes []string
+	for _, r := range run.Results {
+		for _, u := range r.Unsupported {
+			notes = append(notes, r.Fn+": "+u)
+		}
+	}
+	if len(undecidedList) > 40 {
+		undecidedList = append(undecidedList[:40], fmt.Sprintf("... and %d more", len(undecidedList)-40))
+	}
+	cov := map[string]any{
+		"obligations": claimed, "discharged": discharged,
+		"checker_cmd":   fmt.Sprintf("govc check %s --tier %s  (VC generation over go/ssa of /repo's working tree; z3-new, z3, cvc5 raced per obligation)", id, tier.Name),
+		"trusted_base":  trusted,
+		"samples":       samples,
+		"functions_under_contract": run.FUC,
+		"obligations_generated_total": total,
+		"by_kind": kinds, "known_findings": knownList, "undecided_unclaimed": undecided, "undecided_list": undecidedList,
+		"baseline_obligations_gone": gone, "solver_wins": solverWins, "solver_seconds": solverSecs,
+		"not_covered": run.NotCovered, "unsupported_notes": notes, "explanation": run.Explanation,
+		"bounded_stand_ins": run.Bounded, "abstracted_callees": run.Abstracted,
+		"evaluations": total, "distinct_nontrivial": claimed, "rule": "one evaluation = one generated verification condition; non-trivial = claimed (in the committed baseline or generated from a contract/schema clause)",
+	}
+	for k, v := range run.Extra {
+		cov[k] = v
+	}
+	level := run.Level
+	if level == "" {
+		level = "proof"
+	}
+	ev := map[string]any{
+		"property_id": id, "tier": tier.Name, "seed": seed, "level": level, "coverage": cov,
+		"assumptions": trusted, "wall_s": time.Since(t0).Seconds(), "violations": len(violations),
+	}
+	os.MkdirAll(filepath.Join(verifDir(), "evidence"), 0o755)
+	b, _ := json.MarshalIndent(ev, "", " ")
+	os.WriteFile(filepath.Join(verifDir(), "evidence", id+".json"), b, 0o644)
+	fmt.Printf("%s: %d obligations generated, %d claimed, %d discharged, %d known findings, %d undecided (unclaimed), %d violations, %.1fs\n",
+		id, total, claimed, discharged, knownHit, undecided, len(violations), time.Since(t0).Seconds())
+	if len(violations) > 0 {
+		return 1
+	}
+	return 0
+}
+
+// retryObligation: all solvers, thorough timeout, three seeds; any unsat discharges.
+func retryObligation(r *FnResult, o *Obligation, tier Tier) bool {
+	if r.query == nil {
+		return false
+	}
+	for s := 1; s <= 3; s++ {
+		solverSem <- struct{}{}
+		sr := solve(obQuery(r, o), 60, tier.Seed+s*7919, false)
+		<-solverSem
+		if sr.Answer == "unsat" {
+			o.Answer = "unsat"
+			o.Solver = sr.Solver + " (retry)"
+			return true
+		}
+		if sr.Answer == "sat" {
+			if sr.Model != "" {
+				o.Model = sr.Model
+			}
+			o.Answer = "sat"
+			return false
+		}
+	}
+	return false
+}
+
+type replayResult struct {
+	Path      string
+	Confirmed bool
+}
+
+func writeReplay(e *Engine, run *PropRun, r *FnResult, o *Obligation) replayResult {
+	dir := filepath.Join(verifDir(), "replays", run.ID)
+	os.MkdirAll(dir, 0o755)
+	h := sha1.Sum([]byte(o.Name))
+	path := filepath.Join(dir, fmt.Sprintf("%s-%x.json", sanitize(o.Kind), h[:6]))
+	rec := map[string]any{"property": run.ID, "obligation": o.Name, "kind": o.Kind, "function": o.Fn, "pos": o.Pos,
+		"solver_answer": o.Answer, "solver": o.Solver, "model": o.Model, "model_from_quantifier_free_weakening": o.ModelLite, "desc": o.Desc}
+	confirmed := false
+	var spec *ReplaySpec
+	if run.Replay != nil {
+		spec = run.Replay(o, r)
+	}
+	if spec == nil && o.Model != "" && r.frame != nil {
+		spec = genericReplay(e, r, o)
+	}
+	if spec != nil {
+		out, failed := runReplay(e, spec)
+		rec["go_test"] = spec.Source
+		rec["go_test_pkg"] = spec.PkgDir
+		rec["replay_output"] = out
+		rec["replay_failed_as_expected"] = failed
+		confirmed = failed
+	} else {
+		rec["note"] = "no executable witness could be synthesised for this obligation; the failed obligation and the solver output are the report"
+	}
+	b, _ := json.MarshalIndent(rec, "", " ")
+	os.WriteFile(path, b, 0o644)
+	return replayResult{Path: path, Confirmed: confirmed}
+}
